@@ -12,8 +12,8 @@ import operator
 import types
 
 from .path import EngineError, Infeasible, Unsupported
-from .terms import (Abs, And, Eq, Ite, Max, Min, Not, Or, PyArith, SymBool, SymInt, b2i, is_sym, mk_cmp, mk_int,
-                    tobool)
+from .terms import (Abs, And, EncodingUnsupported, Eq, Ite, Max, Min, Not, Or, PyArith, SymBool, SymInt, b2i, is_sym,
+                    mk_cmp, mk_int, tobool)
 
 _SCALAR = (int, SymInt, SymBool)      # bool is an int
 _ATOMIC = (int, float, str, bytes, type(None), complex, range, slice, type(Ellipsis), type(NotImplemented))
@@ -284,6 +284,14 @@ class Ops(object):
                         if k == hi or self.path.decide(Eq(b2i(b), k)):
                             b = k
                             break
+                elif (hi is None or hi > 600) and not self.path.concrete:
+                    # no useful static range: ask the solver whether the path condition bounds the count
+                    LIM = 136
+                    if self.path.solver.feasible(mk_cmp("lt", LIM, b2i(b)).t) == "unsat":
+                        for k in range(0, LIM + 1):
+                            if k == LIM or self.path.decide(Eq(b2i(b), k)):
+                                b = k
+                                break
         elif name == "pow":
             if self.path.decide(mk_cmp("lt", b2i(b), 0)):
                 raise Unsupported("negative exponent (float result)")
@@ -297,6 +305,8 @@ class Ops(object):
             return mk_int(name, a, b)
         except PyArith as e:
             raise self.pyvc.Raised(e.exc)
+        except EncodingUnsupported as e:
+            raise Unsupported(str(e))
 
     def unop(self, op, v):
         if op is ast.Not:
@@ -1057,7 +1067,8 @@ class Ops(object):
                 return _TO_MAP[f](self, args[0], args[1])
             if model is not None:
                 return model(self, *args, **kwargs)
-            if f in self.force_native or (not is_repo_function(f) and self.all_concrete(args, kwargs)):
+            if f in self.force_native or getattr(f, "_vc_native", False) or f.__code__.co_filename.startswith("/verif/vc/") \
+                    or (not is_repo_function(f) and self.all_concrete(args, kwargs)):
                 self.I.native_calls[f.__qualname__] = self.I.native_calls.get(f.__qualname__, 0) + 1
                 return self.native_call(f, args, kwargs)
             if is_repo_function(f) and self.I.cfg.get("native_when_concrete", True) and self.all_concrete(args, kwargs) \
@@ -1748,7 +1759,7 @@ def _m_repr(o, x):
 
 def _m_hex(o, x):
     if is_sym(x):
-        return str(o.fmt_safe(x))
+        return str(o.fmt_safe(x))      # placeholder text (messages); noted on the path
     return o.native_call(hex, (x,))
 
 
@@ -1856,7 +1867,7 @@ def _m_itemgetter(o, *items):
 
 def _m_bin(o, x):
     if is_sym(x):
-        return str(o.fmt_safe(x))
+        raise Unsupported("bin() of a symbolic integer")
     return o.native_call(bin, (x,))
 
 
